@@ -166,6 +166,12 @@ def _schema_cases(tier):
     out.append(('list-of-union', 'union', None, '<xs:element name="c" type="LU" maxOccurs="unbounded"/>', '',
                 [('<c>5 2000-01-01 6</c>', '', {'mixed_list': [('/r/c[1]', [('int', '5'), ('date', '2000-01-01'), ('int', '6')])]})],
                 '<xs:simpleType name="U"><xs:union memberTypes="xs:int xs:date"/></xs:simpleType><xs:simpleType name="LU"><xs:list itemType="U"/></xs:simpleType>'))
+    for first, second, v1, v2 in (('decimal', 'NCName', '12.5', 'auto'), ('decimal', 'date', '1', '2000-02-29'), ('decimal', 'boolean', '0.5', 'true'), ('integer', 'NCName', '7', 'auto'),
+                                  ('double', 'NCName', '1e0', 'auto'), ('date', 'decimal', '2000-02-29', '12.5'), ('boolean', 'decimal', 'true', '12.5')):
+        gU = '<xs:simpleType name="U"><xs:union memberTypes="xs:%s xs:%s"/></xs:simpleType><xs:simpleType name="LU"><xs:list itemType="U"/></xs:simpleType>' % (first, second)
+        out.append(('union-order:%s:%s' % (first, second), 'union', None, '<xs:element name="c" type="U" maxOccurs="unbounded"/><xs:element name="d" type="LU" minOccurs="0"/>', '<xs:attribute name="a" type="U"/>',
+                    [('<c>%s</c><c>%s</c><d>%s %s %s</d>' % (v1, v2, v2, v1, v2), ' a="%s"' % v2,
+                      {'c': [(first, v1), (second, v2)], 'attrs': {'a': (second, v2)}, 'mixed_list': [('/r/d', [(second, v2), (first, v1), (second, v2)])]})], gU))
     # --- restriction chains and user-defined type names in kind tests ---
     for T, lit, facet in (('int', '5', '<xs:maxInclusive value="9"/>'), ('date', '2000-02-29', '<xs:minInclusive value="1999-01-01"/>'), ('string', 'abc', '<xs:maxLength value="9"/>'),
                           ('decimal', '1.5', '<xs:maxInclusive value="9"/>'), ('NCName', 'b1', '<xs:maxLength value="9"/>')):
@@ -173,13 +179,19 @@ def _schema_cases(tier):
              '<xs:simpleType name="O"><xs:restriction base="xs:gDay"><xs:pattern value=".*"/></xs:restriction></xs:simpleType>' % (T, facet))
         out.append(('restriction-chain:' + T, 'restriction', T, '<xs:element name="c" type="S2" maxOccurs="unbounded"/><xs:element name="d" minOccurs="0"><xs:complexType><xs:simpleContent>'
                     '<xs:extension base="S2"><xs:attribute name="b" type="S"/></xs:extension></xs:simpleContent></xs:complexType></xs:element>'
-                    '<xs:element name="e" type="xs:%s" minOccurs="0"/>' % T, '<xs:attribute name="a" type="S2"/><xs:attribute name="z" type="xs:%s"/>' % T,
-                    [('<c>%s</c><d b="%s">%s</d><e>%s</e>' % (lit, lit, lit, lit), ' a="%s" z="%s"' % (lit, lit),
+                    '<xs:element name="e" type="xs:%s" minOccurs="0"/>'
+                    '<xs:element name="f" minOccurs="0"><xs:simpleType><xs:restriction base="S2"><xs:pattern value=".+"/></xs:restriction></xs:simpleType></xs:element>' % T,
+                    '<xs:attribute name="a" type="S2"/><xs:attribute name="z" type="xs:%s"/><xs:attribute name="y"><xs:simpleType><xs:restriction base="S"/></xs:simpleType></xs:attribute>' % T,
+                    [('<c>%s</c><d b="%s">%s</d><e>%s</e><f>%s</f>' % (lit, lit, lit, lit, lit), ' a="%s" z="%s" y="%s"' % (lit, lit, lit),
                       {'c': [(T, lit)], 'd': [(T, lit)], 'attrs': {'a': (T, lit)}, 'paths': [('/r/d/@b', 'attribute', (T, lit)), ('/r/e', 'element', (T, lit)), ('/r/@z', 'attribute', (T, lit))],
                        'user': [('/r/c[1]', 'element', 'S2', True), ('/r/c[1]', 'element', 'S', True), ('/r/c[1]', 'element', 'O', False), ('/r/@a', 'attribute', 'S2', True), ('/r/@a', 'attribute', 'S', True),
                                 ('/r/@a', 'attribute', 'O', False), ('/r/d/@b', 'attribute', 'S', True),
                                 # a node declared with the BASE type is not an instance of the derived user types, although its value is valid for them
-                                ('/r/e', 'element', 'S', False), ('/r/e', 'element', 'S2', False), ('/r/@z', 'attribute', 'S', False), ('/r/d/@b', 'attribute', 'S2', False)]})], g))
+                                ('/r/e', 'element', 'S', False), ('/r/e', 'element', 'S2', False), ('/r/@z', 'attribute', 'S', False), ('/r/d/@b', 'attribute', 'S2', False),
+                                # anonymous types derived from the named ones (also a complex type with simple content: d)
+                                ('/r/f', 'element', 'S2', True), ('/r/f', 'element', 'S', True), ('/r/f', 'element', 'O', False), ('/r/@y', 'attribute', 'S', True),
+                                ('/r/@y', 'attribute', 'S2', False), ('/r/d', 'element', 'S2', True), ('/r/d', 'element', 'S', True), ('/r/d', 'element', 'O', False)],
+                       'paths2': [('/r/f', 'element', (T, lit)), ('/r/@y', 'attribute', (T, lit))]})], g))
     # --- declarations reached through a substitution group or a wildcard (apply_schema looks the global element up by name) ---
     for head_t, sub_t, lit_h, lit_s in (('integer', 'byte', '300', '5'), ('decimal', 'int', '1.5', '7'), ('string', 'NCName', 'x y', 'b1'), ('anySimpleType', 'date', None, '2000-02-29')):
         g = '<xs:element name="hd" type="xs:%s"/><xs:element name="sb" type="xs:%s" substitutionGroup="hd"/>' % (head_t, sub_t)
@@ -214,7 +226,7 @@ def plan(tier, seed):
     cases = schema_cases(tier)
     units = [{'kind': 'case', 'index': i, 'ver': v, 'lib': lib, 'tier': tier} for i in range(len(cases)) for v in ('1.0', '1.1') for lib in ('etree', 'lxml')]
     units += [{'kind': 'qname', 'ver': v, 'lib': lib} for v in ('1.0', '1.1') for lib in ('etree', 'lxml')]
-    units += [{'kind': 'reuse', 'ver': v, 'lib': lib, 'via': via, 'depth': REUSE_DEPTH[tier]} for v in ('1.0', '1.1') for lib in ('etree', 'lxml') for via in ('root', 'item')]
+    units += [{'kind': 'reuse', 'ver': v, 'lib': lib, 'via': via, 'depth': REUSE_DEPTH[tier]} for v in ('1.0', '1.1') for lib in ('etree', 'lxml') for via in ('root', 'item', 'document')]
     return {
         'units': units,
         'bounds': {'reuse_history_depth': REUSE_DEPTH[tier], 'same_name_types': len(SAME_NAME_TYPES) + (len(SAME_NAME_MORE) if tier == 'thorough' else 0), 'reuse_alphabet': ['new context with schema A / B / none', 'set the schema of the current context to A / B / None', 'evaluate //@* and //*'], 'schemas': len(cases), 'xsd_versions': ['1.0', '1.1'], 'libraries': ['etree', 'lxml'], 'paths': len(PATHS), 'atomic_types': len(LEX)},
@@ -426,7 +438,7 @@ def run_case(unit, tier, acc):
         for k, amap in enumerate(info.get('c_attrs', [])):
             for an, decl in amap.items():
                 typed_checks('/r/c[%d]/@%s' % (k + 1, an), decl, 'attribute')
-        for path, label, decl in info.get('paths', []):
+        for path, label, decl in info.get('paths', []) + info.get('paths2', []):
             typed_checks(path, decl, label)
         for path, (tname, lit) in info.get('wildcard', []):
             # the same node reached through a wildcard step with a position
@@ -587,7 +599,7 @@ def run_reuse(unit, tier, acc):
         for hist in itertools.product(alphabet, repeat=depth):
             if not hist[0].startswith('new'):
                 continue            # the first operation creates the first context
-            tree = get_node_tree(ET.fromstring(text))
+            tree = get_node_tree(ET.ElementTree(ET.fromstring(text)) if via == 'document' else ET.fromstring(text))
             case = {'kind': 'reuse', 'ver': ver, 'lib': lib, 'via': via, 'depth': unit.get('depth', 3), 'history': list(hist)}
             acc.case(True)
             ctx, bound = None, None
@@ -595,7 +607,7 @@ def run_reuse(unit, tier, acc):
                 try:
                     if op.startswith('new'):
                         bound = {'A': 'A', 'B': 'B', 'N': None}[op[3]]
-                        if via == 'root':
+                        if via in ('root', 'document'):
                             ctx = XPathContext(root=tree, schema=proxies.get(bound), namespaces=ns)
                         else:
                             ctx = XPathContext(root=tree, item=tree, schema=proxies.get(bound), namespaces=ns)
